@@ -161,9 +161,22 @@ theorem ltF_eq (num : Bool) : ∀ (n : Nat) (x y : Val), depth x < n →
           simp only [wellFormed, Bool.and_eq_true] at hx hy
           simp only [depth] at hd
           split
-          · refine ltItemsBy_canon num _ _ _ ?_ hx.2 hy.2
-            intro p hp y' wx wy
-            exact ih p.2 y' (by have := depth_le_items hp; omega) wx wy
+          · cases hdyn : env.dyn c
+            · simp only [Bool.false_eq_true, if_false]
+              rename_i hcd
+              subst hcd
+              simp only [hdyn, Bool.false_eq_true, if_false]
+              refine ltItemsBy_canon num _ _ _ ?_ hx.2 hy.2
+              intro p hp y' wx wy
+              exact ih p.2 y' (by have := depth_le_items hp; omega) wx wy
+            · rename_i hcd
+              subst hcd
+              simp only [hdyn, if_true, sortItems_canonItems]
+              refine ltItemsBy_canon num _ _ _ ?_ (wellFormedItems_perm (sortItems_perm _).symm hx.2)
+                (wellFormedItems_perm (sortItems_perm _).symm hy.2)
+              intro p hp y' wx wy
+              have hp' := (sortItems_perm (env := env) xs).mem_iff.mp hp
+              exact ih p.2 y' (by have := depth_le_items hp'; omega) wx wy
           · rfl
         | _ => simp only [canon] at hr ⊢; simp only [ltF, lt, hc, hr]
 
